@@ -24,6 +24,12 @@ interleaving of slice / rc / copy / degap / to_rna / add_feature, each call on a
 object made so far; after every history every object must see exactly the records of
 its db, mapped into its own coordinates (harness/hist_C04.py).
 
+Identity of records (AnnotationNames.tla): three sequences sharing one db whose names,
+feature names or biotypes look alike (underscore vs other character, case only, prefix);
+a query on a view of one sequence, with or without name= / biotype=, returns exactly that
+sequence's records by exact string equality (harness/names_C04.py: old-style Alignment,
+old / new Sequences given one db, members of a new-style SequenceCollection).
+
 spec -> code, on old-style and new-style Sequence (features made with seq.add_feature -
 on the root, on a root with an offset, on a slice - or loaded as absolute coordinates
 into a BasicAnnotationDb) and on old-style Alignment:
@@ -796,6 +802,9 @@ def check(run: Run):
         "Order of events (AnnotationHistory.tla): every history of MaxDepth calls, each on any object made so far (slice head/tail/mid, "
         "rc, copy, degap, to_rna, add_feature of the first position / of the rest on either strand, at most 2 adds), P=5; after each "
         "history every object is asked what it sees (quick: depth 3, 25% of the histories; thorough: depth 4, 7%). "
+        "Identity of records (AnnotationNames.tla): 8 universes (one family of look-alike strings at a time for sequence names / "
+        "feature names / biotypes) x every view [a:b] / rc of 3 sequences of length 4 sharing one db x sequence x filter (none, name=, "
+        "biotype=) x partial, on an old-style Alignment, old / new Sequences and members of a new-style collection (quick: 25% of the queries). "
         "distinct_nontrivial = distinct (universe or history, view, feature) whose feature is only partly retained by the view and whose "
         "slice (string / alignment rows) was compared and agreed."
     )
@@ -812,6 +821,7 @@ def check(run: Run):
         "exceptions raised while making a view (e.g. new-style copy() of a sequence with an offset, property C01) are counted as unsupported:*, not as C04 violations; so are slices / projections of features of which the view retains nothing",
         "alignments: old-style Alignment with two rows, one feature on a row in sequence coordinates (queried with on_alignment=False) and the same spans as an alignment-level feature (on_alignment=True), no annotation offsets on rows; Alignment.degap(), ArrayAlignment and new-style collections are not driven",
         "add_feature on a reverse complemented sequence is not driven (the documentation does not say which strand the spans refer to)",
+        "seqid, feature name and biotype are compared by exact string equality; strings containing '%' are not driven (annotation_db documents '%' as the wildcard of its searches)",
         "spec -> code only: no recorded-trace (code -> spec) validation for this property",
     ]
 
